@@ -1,3 +1,142 @@
-From Verif Require Import C16.Spec C16.Model C16.Proofs.
-Theorem c16_stub : True. Proof. exact stub_true. Qed.
-Print Assumptions c16_stub.
+(** C16 property theorems: global providers forward to the installed SDK without
+    loss or deadlock.  Statements only; every proof is [exact] of a lemma of
+    Proofs.v / Dead.v / Hist.v.  [run false] is the protocol of the repaired code
+    (commit 79987fb), [run true] the protocol as found; schedules [sch] are arbitrary
+    lists of thread ids, programs [prog : nat -> op] assign one API call to each of
+    any number of threads. *)
+From Coq Require Import List Arith NArith Bool.
+From Verif Require Import C16.Spec C16.Hist C16.Model C16.Inv C16.Inv4 C16.Dead C16.Tracer C16.Proofs.
+Import ListNotations.
+
+(** Once SetMeterProvider has returned, a measurement whose call begins afterwards reaches
+    the SDK exactly once, on whatever instrument (obtained before, during or after
+    installation); no measurement is ever duplicated; and every instrument handle that
+    exists forwards. *)
+Theorem c16_forwarding_after_install : forall prog sch s,
+  run false prog init sch = Some s ->
+  ForwardingAfterInstall (hist s) /\
+  (inb EInstallRet (hist s) = true ->
+   (forall k, mcreated s k = true -> mdel s k = true) /\
+   (forall i, ist s i = INone \/ forwards s i = true)).
+Proof. intros prog sch s H. split; [exact (m_forwarding prog sch s H) | exact (m_forwards_state prog sch s H)]. Qed.
+Print Assumptions c16_forwarding_after_install.
+
+(** The same for tracers and spans (SetTracerProvider). *)
+Theorem c16_tracer_forwarding_after_install : forall prog sch s,
+  trun prog tinit sch = Some s ->
+  ForwardingAfterInstall (thist s) /\
+  (inb ETInstallRet (thist s) = true -> forall x, tdel s x = None \/ tdel s x = Some true).
+Proof.
+  intros prog sch s H. split; [exact (proj2 (t_spec prog sch s H)) | exact (t_forwards_state prog sch s H)].
+Qed.
+Print Assumptions c16_tracer_forwarding_after_install.
+
+(** Every registration: registered with the SDK at most once and never unregistered more often;
+    exactly once (and still registered) once installation has returned if Unregister was never
+    called on it; never, if its Unregister returned before installation began; and once its
+    Unregister has returned it is not registered with the SDK and never will be. *)
+Theorem c16_callbacks_exactly_once : forall prog sch s,
+  run false prog init sch = Some s -> CallbacksExactlyOnce (hist s).
+Proof. exact m_callbacks. Qed.
+Print Assumptions c16_callbacks_exactly_once.
+
+(** The same, clause by clause, without the boolean packaging. *)
+Theorem c16_callbacks_plain : forall prog sch s r,
+  run false prog init sch = Some s ->
+  let h := hist s in
+  count (ESdkReg r) h <= 1 /\ count (ESdkUnreg r) h <= count (ESdkReg r) h /\
+  (In (ERegRet r) h -> In EInstallRet h -> ~ In (EUnregCall r) h ->
+   count (ESdkReg r) h = 1 /\ count (ESdkUnreg r) h = 0) /\
+  (In (EUnregRet r) (before EInstallCall h) -> count (ESdkReg r) h = 0) /\
+  (In (EUnregRet r) h ->
+   count (ESdkUnreg r) h = count (ESdkReg r) h /\
+   count (ESdkReg r) (after (EUnregRet r) h) = 0 /\ count (ESdkUnreg r) (after (EUnregRet r) h) = 0).
+Proof. intros prog sch s r H. apply reg_ok_plain. exact (m_callbacks prog sch s H r). Qed.
+Print Assumptions c16_callbacks_plain.
+
+(** An instrument whose constructor returned at any time -- in particular while installation
+    was in progress, on either side of meter.mtx -- is connected once installation has returned. *)
+Theorem c16_no_orphans : forall prog sch s,
+  run false prog init sch = Some s -> inb EInstallRet (hist s) = true ->
+  forall i, inb (EInstRet (N.of_nat i)) (hist s) = true -> forwards s i = true.
+Proof. exact m_no_orphans. Qed.
+Print Assumptions c16_no_orphans.
+
+(** No reachable state is stuck: as long as some thread has not finished its call, some
+    thread can take a step. *)
+Theorem c16_deadlock_free : forall prog sch s,
+  run false prog init sch = Some s ->
+  forall t, ~ finished prog s t -> exists u s', step false prog s u = Some s'.
+Proof. exact m_deadlock_free. Qed.
+Print Assumptions c16_deadlock_free.
+
+Theorem c16_tracer_deadlock_free : forall prog sch s,
+  trun prog tinit sch = Some s ->
+  forall t, ~ tfinished prog s t -> exists u s', tstep prog s u = Some s'.
+Proof. exact t_deadlock_free. Qed.
+Print Assumptions c16_tracer_deadlock_free.
+
+(** What the theorem above excludes: the protocol as found (registration.setDelegate called
+    while holding meter.mtx) reaches a state where no thread can move while Unregister
+    (thread 2, holding unregMu, waiting for meter.mtx) and SetMeterProvider (thread 3, holding
+    meter.mtx, waiting for unregMu) are both unfinished. *)
+Theorem c16_old_protocol_deadlock_reachable :
+  exists prog sch s,
+    run true prog init sch = Some s /\ (forall u, step true prog s u = None) /\
+    pcs s 2 = UWaitM 1 0 /\ pcs s 3 = IRegs 0 [1] [] /\ mlock s 0 = Some 3 /\ ulock s 1 = Some 2.
+Proof. exists old_prog, old_sched, old_state. split; [exact old_run | split; [exact old_stuck | exact old_waiting]]. Qed.
+Print Assumptions c16_old_protocol_deadlock_reachable.
+
+(** The histories of both transition systems satisfy the checker the harness applies to the
+    histories recorded from the implementation, and the checker decides the specification. *)
+Theorem c16_model_histories_pass : forall prog sch s,
+  run false prog init sch = Some s -> spec_ok (hist s) = true.
+Proof. intros prog sch s H. apply spec_ok_iff. exact (m_spec prog sch s H). Qed.
+Print Assumptions c16_model_histories_pass.
+
+Theorem c16_tracer_histories_pass : forall prog sch s,
+  trun prog tinit sch = Some s -> spec_ok (thist s) = true.
+Proof. intros prog sch s H. apply spec_ok_iff. exact (t_spec prog sch s H). Qed.
+Print Assumptions c16_tracer_histories_pass.
+
+Theorem c16_checker_sound : forall h, spec_ok h = true <-> Spec h.
+Proof. exact spec_ok_iff. Qed.
+Print Assumptions c16_checker_sound.
+
+(** ** Non-vacuity *)
+(** A complete sequential run: meter, instrument, registration, installation, a measurement,
+    Unregister.  Everything reaches the SDK exactly once. *)
+Definition ex_prog : nat -> op :=
+  prog_of [OpMeter 0; OpInst 0; OpRegister 0; OpInstall; OpRecord 1; OpUnregister 2].
+Definition ex_sched : list nat := [0;0;0; 1;1;1; 2;2;2; 3;3;3;3;3;3;3;3;3;3;3;3;3; 4;4; 5;5;5].
+Example ex_complete :
+  exists s, run false ex_prog init ex_sched = Some s /\
+            (forall t, finished ex_prog s t) /\
+            inb EInstallRet (hist s) = true /\
+            count (ESdkRec 4) (hist s) = 1 /\ count (ESdkReg 2) (hist s) = 1 /\ count (ESdkUnreg 2) (hist s) = 1 /\
+            forwards s 1 = true.
+Proof.
+  eexists. split; [vm_compute; reflexivity|]. split.
+  - intro t. do 6 (destruct t as [|t]; [left; reflexivity|]). right. split; [reflexivity | destruct t; reflexivity].
+  - vm_compute. repeat split; reflexivity.
+Qed.
+
+(** An instrument created while installation is in progress (its constructor takes meter.mtx
+    before the installer does) ends up connected. *)
+Definition ex2_prog : nat -> op := prog_of [OpMeter 0; OpInst 0; OpInstall].
+Definition ex2_sched : list nat := [0;0;0; 2;2; 1; 2;2; 1;1; 2;2;2;2;2;2;2].
+Example ex_during_installation :
+  exists s, run false ex2_prog init ex2_sched = Some s /\
+            hist s = [EInstallCall; EInstRet 1; EInstallRet] /\ forwards s 1 = true.
+Proof. eexists. split; [vm_compute; reflexivity|]. vm_compute. split; reflexivity. Qed.
+
+(** The deadlock-freedom theorem talks about real waiting: here thread 1 waits for meter 0's lock. *)
+Example ex_blocked_thread :
+  exists s, run false ex2_prog init [0;0;0; 2;2;2;2;2; 1] = Some s /\
+            step false ex2_prog s 1 = None /\ ~ finished ex2_prog s 1 /\
+            exists s', step false ex2_prog s 2 = Some s'.
+Proof.
+  eexists. split; [vm_compute; reflexivity|]. split; [vm_compute; reflexivity|]. split.
+  - intros [H|[H _]]; vm_compute in H; discriminate.
+  - eexists. vm_compute. reflexivity.
+Qed.
